@@ -249,7 +249,7 @@ theorem rule_through_wrapper (n : Nat) (W : String) (rest inner : List String) (
     words are left alone, what a backslash escapes inside double quotes, the numeric escapes of `$'…'`) -/
 theorem quote_removal_shape :
     Generated.Quoting.secondPassPresent = true
-      ∧ Generated.Quoting.ownContextMarkers = ["$(", "`", "${", "<(", ">("]
+      ∧ Generated.Quoting.ownContextMarkers = ["ch == '`' or value[i:i + 2] in ('$(', '${', '<(', '>(')", "value[i] == '`' or value[i:i + 2] in ('$(', '${')"]
       ∧ Generated.Quoting.doubleQuoteEscapable = "$`\"\\\n"
       ∧ Generated.Quoting.ansiCNumericPattern = "([0-7]{1,3})|(?:x([0-9a-fA-F]{1,2})|u([0-9a-fA-F]{1,4})|U([0-9a-fA-F]{1,8}))" := by
   decide
@@ -258,12 +258,13 @@ theorem quote_removal_shape :
 theorem quote_removal_examples :
     removeQuotes "-\"exec\"" = "-exec" ∧ removeQuotes "\\-delete" = "-delete" ∧ removeQuotes "r\\m" = "rm"
       ∧ removeQuotes "$'\\x2ddel\\145te'" = "-delete" ∧ removeQuotes "'r'\"m\"" = "rm" ∧ removeQuotes "$'\\u002dexec'" = "-exec"
-      ∧ removeQuotes "\"$(x)\"" = "$(x)" ∧ removeQuotes "it\\'s" = "it's" := by
+      ∧ removeQuotes "\"$(x)\"" = "$(x)" ∧ removeQuotes "it\\'s" = "it's"
+      ∧ removeQuotes "\"echo \\`rm x\\`\"" = "echo `rm x`" ∧ removeQuotes "'a`b'\\$(" = "a`b$(" := by
   decide +kernel
 
-/-- a word without quote characters, backslashes or `$` is read as written -/
+/-- a word without quote characters, backslashes, `$`, backticks or `<` `>` is read as written -/
 theorem rqLoop_plain (esc : List (Char × Char)) (cs acc : List Char) (f : Nat) (hf : cs.length < f)
-    (hc : ∀ c ∈ cs, c ≠ '\\' ∧ c ≠ '\'' ∧ c ≠ '"' ∧ c ≠ '$') :
+    (hc : ∀ c ∈ cs, c ≠ '\\' ∧ c ≠ '\'' ∧ c ≠ '"' ∧ c ≠ '$' ∧ c ≠ '`' ∧ c ≠ '<' ∧ c ≠ '>') :
     rqLoop esc f .plain cs acc = some (acc.reverse ++ cs) := by
   induction cs generalizing acc f with
   | nil =>
@@ -274,8 +275,8 @@ theorem rqLoop_plain (esc : List (Char × Char)) (cs acc : List Char) (f : Nat) 
     cases f with
     | zero => simp at hf
     | succ f =>
-      obtain ⟨h1, h2, h3, h4⟩ := hc c (by simp)
-      simp only [rqLoop, h1, h2, h3, h4, ↓reduceIte]
+      obtain ⟨h1, h2, h3, h4, h5, h6, h7⟩ := hc c (by simp)
+      simp only [rqLoop, h1, h2, h3, h4, h5, h6, h7, false_or, false_and, or_self, ↓reduceIte]
       rw [ih (c :: acc) f (by simp at hf; omega) (fun x hx => hc x (by simp [hx]))]
       simp
 
